@@ -4,10 +4,24 @@ use crate::variable::Variable;
 pub fn exec(base: Variable, exp: Variable) -> Result<Variable, ExecError> {
     match (base, exp) {
         (_, Variable::Int(exp)) if exp < 0 => Err(ExecError::NegativeExponent),
-        (Variable::Int(base), Variable::Int(exp)) => Ok((base.wrapping_pow(exp as u32)).into()),
+        (Variable::Int(base), Variable::Int(exp)) => Ok(wrapping_pow(base, exp as u64).into()),
         (Variable::Float(base), Variable::Float(exp)) => Ok((base.powf(exp)).into()),
         (base, exp) => panic!("Tried to calc {base} * {exp}"),
     }
+}
+
+/// base ** exp modulo 2^64 for every non-negative exponent (i64::wrapping_pow
+/// only takes a u32 exponent)
+fn wrapping_pow(mut base: i64, mut exp: u64) -> i64 {
+    let mut result: i64 = 1;
+    while exp > 0 {
+        if exp & 1 == 1 {
+            result = result.wrapping_mul(base);
+        }
+        base = base.wrapping_mul(base);
+        exp >>= 1;
+    }
+    result
 }
 
 #[cfg(test)]
